@@ -63,7 +63,7 @@ func TestVerif_C12(t *testing.T) {
 	r := vh.Start(t, "C12")
 	defer r.Finish()
 	r.Rule("GATE, 2-3 processes running the real LockRepo / Unlock (and RemoveStaleLocks, crash) over one shared gated store; all interleavings of their lock-file backend operations and of time passing, within the preemption bound. non-trivial = execution in which two processes had both created their lock file before either finished its re-check, or in which both held (shared) locks at the same time. states = distinct complete schedules.")
-	r.Assume("one clock (zero skew): all processes share the bubble's virtual clock", "a backend operation takes effect atomically when the scheduler releases it; listings are immediately consistent", "processes interact only through the backend")
+	r.Assume("one clock (zero skew): all processes share the bubble's virtual clock", "a backend operation takes effect atomically when the scheduler releases it; listings are immediately consistent", "processes interact only through the backend", "no operation stalls longer than 5 minutes while pending (the statement excludes stalls beyond the staleness margin)")
 	ctx := context.Background()
 	oracle.LowKDF()
 	_, store0, err := oracle.NewRepo(ctx, 2, repository.Options{})
@@ -120,7 +120,7 @@ func TestVerif_C12(t *testing.T) {
 						defer func() { pp.done = true }()
 						if pp.role == "unlocker" {
 							// `restic unlock`: runs whenever the scheduler lets it
-							x.Gate(xplore.Event{Key: pp.name + ":start-unlock", Proc: pp.name, Kind: "start"})
+							x.Gate(xplore.Event{Key: pp.name + ":start-unlock", Proc: pp.name, Kind: "start", Yield: true})
 							_, _ = repository.RemoveStaleLocks(x.Ctx, repo)
 							return
 						}
@@ -132,7 +132,7 @@ func TestVerif_C12(t *testing.T) {
 						pp.lockCtx = lctx
 						pp.holding, pp.heldOnce = true, true
 						// hold the lock until the scheduler says otherwise
-						a := x.Gate(xplore.Event{Key: pp.name + ":holding", Proc: pp.name, Kind: "work", Alts: verifC12HoldAlts(pp.role)})
+						a := x.Gate(xplore.Event{Key: pp.name + ":holding", Proc: pp.name, Kind: "work", Yield: true, Alts: verifC12HoldAlts(pp.role)})
 						if pp.role == "crasher" && a == 1 {
 							// process dies: it stops believing anything, its lock file stays
 							pp.holding = false
@@ -197,7 +197,7 @@ func TestVerif_C12(t *testing.T) {
 				r.Sample(map[string]any{"scenario": sc.name, "events": x.Labels[:12], "outcome": out})
 			}
 		}
-		stt := vx.Explore(r, t, sc.name, xs, xplore.Options{Policy: xplore.Preempt, Bound: bound, MaxSteps: 400, TimeAction: true, IdleTimeout: 3 * time.Hour}, check)
+		stt := vx.Explore(r, t, sc.name, xs, xplore.Options{Policy: xplore.Preempt, Bound: bound, MaxSteps: 400, TimeAction: true, TimeQuantum: 5 * time.Minute, IdleTimeout: 3 * time.Hour}, check)
 		r.Note("%s: execs(this shard)=%d", sc.name, stt.Execs)
 	}
 	r.Extra("preemption_bound", bound)
